@@ -317,7 +317,8 @@ func ips(xs []uint32) []net.IP {
 	return out
 }
 
-func buildState(host, zone string, svcs []svcT) proxy.DPSyncerState {
+func buildState(host, zone string, svcs []svcT) (proxy.DPSyncerState, map[k8sp.ServicePortName]string) {
+	tok := map[k8sp.ServicePortName]string{}
 	st := proxy.DPSyncerState{SvcMap: k8sp.ServicePortMap{}, EpsMap: k8sp.EndpointsMap{}, Hostname: host, NodeZone: zone}
 	for _, s := range svcs {
 		opts := []proxy.K8sServicePortOption{
@@ -356,6 +357,7 @@ func buildState(host, zone string, svcs []svcT) proxy.DPSyncerState {
 			opts = append(opts, proxy.K8sSvcWithReapTerminatingUDP())
 		}
 		name := spn(s.name)
+		tok[name] = s.name
 		st.SvcMap[name] = proxy.NewK8sServicePort(u2ip(s.cip), int(s.port), protoV1(s.proto), opts...)
 		var eps []k8sp.Endpoint
 		for _, e := range s.eps {
@@ -370,52 +372,28 @@ func buildState(host, zone string, svcs []svcT) proxy.DPSyncerState {
 			st.EpsMap[name] = eps
 		}
 	}
-	return st
+	return st, tok
+}
+
+// idHint renders the service IDs the real Apply chose (see Driver/C42.lean).
+func idHint(syn *proxy.Syncer, tok map[k8sp.ServicePortName]string) string {
+	var xs []string
+	for _, e := range syn.VerifSvcIDs() {
+		switch {
+		case e.Extra == "":
+			xs = append(xs, fmt.Sprintf("%s@P=%d", tok[e.Name], e.ID))
+		case strings.HasPrefix(e.Extra, "NodePortRemote:"):
+			xs = append(xs, fmt.Sprintf("%s@R%d=%d", tok[e.Name], ip2u(net.ParseIP(strings.TrimPrefix(e.Extra, "NodePortRemote:"))), e.ID))
+		}
+	}
+	sort.Strings(xs)
+	return "ids=" + joinS(xs)
 }
 
 // ---------------------------------------------------------------- canonical printing (mirrors Driver/C42.lean)
 
-func sigOf(B map[bkey]bval, id uint32) string {
-	var xs []string
-	for k, v := range B {
-		if k.id == id {
-			xs = append(xs, fmt.Sprintf("%d=%v", k.idx, v))
-		}
-	}
-	sort.Strings(xs)
-	return strings.Join(xs, ",")
-}
-
 func labeler(pre, post dp) func(uint32) string {
-	memo := map[uint32]string{}
-	first := func(F map[fkey]fval, id uint32) (string, bool) {
-		var xs []string
-		for k, v := range F {
-			if v.id == id {
-				xs = append(xs, k.String())
-			}
-		}
-		if len(xs) == 0 {
-			return "", false
-		}
-		sort.Strings(xs)
-		return xs[0], true
-	}
-	return func(id uint32) string {
-		if l, ok := memo[id]; ok {
-			return l
-		}
-		var l string
-		if k, ok := first(pre.F, id); ok {
-			l = "p" + k
-		} else if k, ok := first(post.F, id); ok {
-			l = "n" + k
-		} else {
-			l = "o" + sigOf(pre.B, id) + "~" + sigOf(post.B, id)
-		}
-		memo[id] = l
-		return l
-	}
+	return func(id uint32) string { return strconv.FormatUint(uint64(id), 10) }
 }
 
 func showFV(lab func(uint32) string, v fval) string {
@@ -508,35 +486,35 @@ func (s *state) freshMaps() {
 
 var _ maps.MapWithExistsCheck = (*recMap)(nil)
 
-func exec(h *rt.H, s *state, op string) string {
+func exec(h *rt.H, s *state, op string) (string, string) {
 	w := strings.Fields(op)
 	s.curOp = op
 	switch w[0] {
 	case "new":
 		s.freshMaps()
 		s.newSyncer(w[1], w[2])
-		return "ok"
+		return "ok", op
 	case "restart":
 		s.newSyncer(w[1], w[2])
-		return "ok"
+		return "ok", op
 	case "pokeF":
 		k := nat.NewNATKeySrc(u2ip(u(w[1])), uint16(u(w[2])), uint8(u(w[3])), ip.CIDRFromAddrAndPrefix(ip.FromNetIP(u2ip(u(w[4]))), int(u(w[5]))))
 		v := nat.NewNATValueWithFlags(u(w[6]), u(w[7]), u(w[8]), u(w[9]), u(w[10]))
 		s.fe.Contents[string(k.AsBytes())] = string(v.AsBytes())
-		return "ok"
+		return "ok", op
 	case "unpokeF":
 		k := nat.NewNATKeySrc(u2ip(u(w[1])), uint16(u(w[2])), uint8(u(w[3])), ip.CIDRFromAddrAndPrefix(ip.FromNetIP(u2ip(u(w[4]))), int(u(w[5]))))
 		delete(s.fe.Contents, string(k.AsBytes()))
-		return "ok"
+		return "ok", op
 	case "pokeB":
 		k := nat.NewNATBackendKey(u(w[1]), u(w[2]))
 		v := nat.NewNATBackendValue(u2ip(u(w[3])), uint16(u(w[4])))
 		s.be.Contents[string(k.AsBytes())] = string(v.AsBytes())
-		return "ok"
+		return "ok", op
 	case "unpokeB":
 		k := nat.NewNATBackendKey(u(w[1]), u(w[2]))
 		delete(s.be.Contents, string(k.AsBytes()))
-		return "ok"
+		return "ok", op
 	case "apply":
 		host, zone := w[1], w[2]
 		if host == "-" {
@@ -546,8 +524,11 @@ func exec(h *rt.H, s *state, op string) string {
 			zone = ""
 		}
 		fp := u(w[3])
+		if strings.HasPrefix(w[len(w)-1], "ids=") { // replayed line: the hint is recomputed from this run
+			w = w[:len(w)-1]
+		}
 		svcs := parseSvcs(w[4:])
-		st := buildState(host, zone, svcs)
+		st, tok := buildState(host, zone, svcs)
 		pre := s.snapshot()
 		s.trace = nil
 		s.failKind = map[uint32]string{0: "", 1: "dF", 2: "sB", 3: "sF", 4: "dB"}[fp]
@@ -565,7 +546,7 @@ func exec(h *rt.H, s *state, op string) string {
 			finalOracle(h, s, svcs, post, op)
 		}
 		h.Count(fmt.Sprintf("apply:writes:%s", bucket(len(s.trace))))
-		return showApply(pre, post, err == nil, s.trace)
+		return showApply(pre, post, err == nil, s.trace), strings.Join(w, " ") + " " + idHint(s.syn, tok)
 	}
 	panic("unknown op " + op)
 }
@@ -593,9 +574,350 @@ func finalOracle(h *rt.H, s *state, svcs []svcT, d dp, op string) {
 
 // ---------------------------------------------------------------- generator
 
+type world struct {
+	h     *rt.H
+	svcs  []*svcT
+	host  string
+	zone  string
+	npIPs []uint32
+}
+
+var (
+	namePool  = []string{"default/kubernetes:https", "n1/a:p", "n1/b", "n2/c:q", "n2/d:p", "n3/e", "default/kubernetes:dns"}
+	portPool  = []uint32{80, 443, 8080, 53, 30001}
+	protoPool = []uint32{6, 6, 17, 132}
+	npIPPool  = []uint32{0xC0A80001, 0x0A7B0001, 0xffffffff}
+	nodePool  = []uint32{0xAC100001, 0xAC100002, 0xAC100003}
+	zonePool  = []string{"z1", "z2"}
+	hostPool  = []string{"h1", "h2"}
+	topoPool  = []string{"", "", "", "Auto", "auto", "Disabled"}
+)
+
+const (
+	cipBase = 0x0A600000 // 10.96.0.x
+	extBase = 0x23000000 // 35.0.0.x  (external + LB VIP pool)
+	epBase  = 0x0A010000 // 10.1.0.x
+)
+
+func (w *world) usedIPs(except *svcT) map[uint32]bool {
+	m := map[uint32]bool{}
+	for _, s := range w.svcs {
+		if s == except {
+			continue
+		}
+		m[s.cip] = true
+		for _, x := range s.ext {
+			m[x] = true
+		}
+		for _, x := range s.lb {
+			m[x] = true
+		}
+	}
+	return m
+}
+
+func (w *world) freeIP(base uint32, n int, except *svcT) uint32 {
+	used := w.usedIPs(except)
+	for try := 0; try < 50; try++ {
+		c := base + 1 + uint32(w.h.Intn(n))
+		if !used[c] {
+			return c
+		}
+	}
+	return base + 200 + uint32(len(w.svcs))
+}
+
+func (w *world) freeNP(except *svcT) uint32 {
+	for try := 0; try < 50; try++ {
+		c := 30000 + uint32(w.h.Intn(8))
+		ok := true
+		for _, s := range w.svcs {
+			if s != except && s.np == c {
+				ok = false
+			}
+		}
+		if ok {
+			return c
+		}
+	}
+	return 0
+}
+
+func (w *world) genEp() epT {
+	h := w.h
+	e := epT{ip: epBase + 1 + uint32(h.Intn(10)), port: rt.Pick(h, []uint32{8080, 9090})}
+	switch h.Intn(10) {
+	case 0:
+		e.flags = 0 // not ready
+	case 1:
+		e.flags = 4 | 8 // serving, terminating
+	case 2:
+		e.flags = 8
+	default:
+		e.flags = 2 | 4
+	}
+	if h.Chance(0.4) {
+		e.flags |= 1
+	}
+	if h.Chance(0.3) {
+		e.zh = []string{rt.Pick(h, zonePool)}
+		if h.Chance(0.2) {
+			e.zh = []string{"z1", "z2"}
+		}
+	}
+	if h.Chance(0.15) {
+		e.nh = []string{rt.Pick(h, hostPool)}
+	}
+	return e
+}
+
+func (w *world) genIPList(s *svcT, max int) []uint32 {
+	h := w.h
+	var out []uint32
+	n := 0
+	if h.Chance(0.5) {
+		n = 1 + h.Intn(max)
+	}
+	for i := 0; i < n; i++ {
+		c := w.freeIP(extBase, 8, s)
+		dup := false
+		for _, x := range out {
+			dup = dup || x == c
+		}
+		if !dup {
+			out = append(out, c)
+		}
+	}
+	return out
+}
+
+func (w *world) genSrc() [][3]uint32 {
+	h := w.h
+	if !h.Chance(0.3) {
+		return nil
+	}
+	pool := [][3]uint32{{0x23000100, 24, 0}, {0x21000000, 16, 0}, {0x0B000000, 8, 0}, {0x01020300, 64, 1}, {0x23000102, 32, 0}}
+	var out [][3]uint32
+	for _, i := range h.Rng.Perm(len(pool))[:1+h.Intn(3)] {
+		out = append(out, pool[i])
+	}
+	return out
+}
+
+func (w *world) addSvc() {
+	h := w.h
+	var free []string
+	for _, n := range namePool {
+		used := false
+		for _, s := range w.svcs {
+			used = used || s.name == n
+		}
+		if !used {
+			free = append(free, n)
+		}
+	}
+	if len(free) == 0 {
+		return
+	}
+	s := &svcT{name: rt.Pick(h, free), aff: -1}
+	s.cip = w.freeIP(cipBase, 8, s)
+	s.port = rt.Pick(h, portPool)
+	s.proto = rt.Pick(h, protoPool)
+	w.svcs = append(w.svcs, s)
+	if h.Chance(0.5) {
+		s.np = w.freeNP(s)
+	}
+	s.ext = w.genIPList(s, 2)
+	s.lb = w.genIPList(s, 2)
+	if len(s.ext) > 0 && h.Chance(0.1) {
+		s.lb = append(s.lb, s.ext[0]) // LB VIP == external IP of the same service
+	}
+	if len(s.ext)+len(s.lb) > 0 || h.Chance(0.1) {
+		s.src = w.genSrc()
+	}
+	if h.Chance(0.25) {
+		s.aff = rt.Pick(h, []int{0, 10800, 60})
+	}
+	s.flags = uint32(rt.Pick(h, []int{0, 0, 0, 1, 2, 3, 4, 8, 7}))
+	if h.Chance(0.2) {
+		s.hc = 32000 + uint32(h.Intn(3))
+	}
+	s.topo = rt.Pick(h, topoPool)
+	for i, n := 0, h.Intn(5); i < n; i++ {
+		s.eps = append(s.eps, w.genEp())
+	}
+}
+
+func (w *world) mutate() {
+	h := w.h
+	if len(w.svcs) == 0 || h.Chance(0.2) {
+		w.addSvc()
+		return
+	}
+	i := h.Intn(len(w.svcs))
+	s := w.svcs[i]
+	switch h.Intn(22) {
+	case 0:
+		w.svcs = append(w.svcs[:i:i], w.svcs[i+1:]...)
+	case 1:
+		s.port = rt.Pick(h, portPool)
+	case 2:
+		if s.np == 0 || h.Bool() {
+			s.np = w.freeNP(s)
+		} else {
+			s.np = 0
+		}
+	case 3:
+		s.ext = w.genIPList(s, 2)
+	case 4:
+		s.lb = w.genIPList(s, 2)
+	case 5:
+		s.src = w.genSrc()
+	case 6:
+		if s.aff < 0 {
+			s.aff = rt.Pick(h, []int{0, 10800, 60})
+		} else {
+			s.aff = -1
+		}
+	case 7:
+		s.flags ^= uint32(1 << h.Intn(4))
+	case 8:
+		s.hc = uint32(rt.Pick(h, []int{0, 32000, 32001}))
+	case 9:
+		s.topo = rt.Pick(h, topoPool)
+	case 10:
+		s.cip = w.freeIP(cipBase, 8, s)
+	case 11:
+		s.proto = rt.Pick(h, protoPool)
+	case 12, 13, 14:
+		s.eps = append(s.eps, w.genEp())
+	case 15, 16:
+		if len(s.eps) > 0 {
+			j := h.Intn(len(s.eps))
+			s.eps = append(s.eps[:j:j], s.eps[j+1:]...)
+		}
+	case 17, 18:
+		if len(s.eps) > 0 {
+			s.eps[h.Intn(len(s.eps))].flags ^= uint32(1 << h.Intn(4))
+		}
+	case 19:
+		for j := range s.eps { // everything becomes unready (API server fallback path)
+			s.eps[j].flags &^= 2
+		}
+	case 20:
+		if len(s.eps) > 1 {
+			h.Rng.Shuffle(len(s.eps), func(a, b int) { s.eps[a], s.eps[b] = s.eps[b], s.eps[a] })
+		}
+	case 21:
+		if h.Bool() {
+			w.zone = rt.Pick(h, zonePool)
+		} else {
+			w.host = rt.Pick(h, hostPool)
+		}
+	}
+}
+
+func (w *world) applyOp(fp int) string {
+	ws := []string{"apply", w.host, w.zone, strconv.Itoa(fp)}
+	for _, i := range w.h.Rng.Perm(len(w.svcs)) {
+		ws = append(ws, w.svcs[i].words()...)
+	}
+	return strings.Join(ws, " ")
+}
+
+func (w *world) syncerArgs() string {
+	h := w.h
+	var np []uint32
+	for _, x := range npIPPool {
+		if h.Chance(0.6) {
+			np = append(np, x)
+		}
+	}
+	w.npIPs = np
+	var rts []string
+	for i := 1; i <= 10; i++ {
+		switch h.Intn(6) {
+		case 0: // no route
+		case 1:
+			rts = append(rts, fmt.Sprintf("%d:3:0", epBase+uint32(i)))
+		case 2:
+			rts = append(rts, fmt.Sprintf("%d:0:%d", epBase+uint32(i), rt.Pick(h, nodePool)))
+		default:
+			rts = append(rts, fmt.Sprintf("%d:1:%d", epBase+uint32(i), rt.Pick(h, nodePool)))
+		}
+	}
+	return joinU(np) + " " + joinS(rts)
+}
+
+// pokes: other writers / crash left-overs in the pinned maps while no syncer is running.
+func (w *world) pokes() []string {
+	h := w.h
+	var out []string
+	for i, n := 0, h.Intn(4); i < n; i++ {
+		switch h.Intn(4) {
+		case 0, 1:
+			var ipa, port, proto uint32
+			if len(w.svcs) > 0 && h.Chance(0.8) {
+				s := rt.Pick(h, w.svcs)
+				proto = s.proto
+				cands := [][2]uint32{{s.cip, s.port}}
+				for _, e := range s.ext {
+					cands = append(cands, [2]uint32{e, s.port})
+				}
+				for _, e := range s.lb {
+					cands = append(cands, [2]uint32{e, s.port})
+				}
+				if s.np != 0 {
+					for _, n := range w.npIPs {
+						cands = append(cands, [2]uint32{n, s.np})
+					}
+					cands = append(cands, [2]uint32{s.cip, s.np})
+				}
+				c := rt.Pick(h, cands)
+				ipa, port = c[0], c[1]
+			} else {
+				ipa, port, proto = cipBase+1+uint32(h.Intn(8)), rt.Pick(h, portPool), rt.Pick(h, protoPool)
+			}
+			out = append(out, fmt.Sprintf("pokeF %d %d %d 0 0 %d %d %d %d %d", ipa, port, proto, h.Intn(8), h.Intn(4), h.Intn(2), rt.Pick(h, []int{0, 60}), h.Intn(4)))
+		case 2:
+			out = append(out, fmt.Sprintf("pokeB %d %d %d %d", h.Intn(8), h.Intn(4), epBase+1+uint32(h.Intn(10)), 8080))
+		case 3:
+			out = append(out, fmt.Sprintf("unpokeB %d %d", h.Intn(8), h.Intn(3)))
+		}
+	}
+	return out
+}
+
 func genCase(h *rt.H) []string {
-	return []string{"new 3232235521 -",
-		"apply h1 z1 0 S n1/s1:p 174063617 80 6 0 - - - - 0 0 - 2 E 167837697 8080 6 - - E 167837698 8080 7 - -"}
+	w := &world{h: h, host: rt.Pick(h, hostPool), zone: rt.Pick(h, zonePool)}
+	ops := []string{"new " + w.syncerArgs()}
+	if h.Chance(0.15) { // start-up over maps somebody else already wrote
+		ops = append(ops, w.pokes()...)
+		ops = append(ops, "restart "+w.syncerArgs())
+	}
+	for i, n := 0, 1+h.Intn(3); i < n; i++ {
+		w.addSvc()
+	}
+	steps := 3 + h.Intn(10)
+	for i := 0; i < steps; i++ {
+		if i > 0 {
+			for j, n := 0, 1+h.Intn(3); j < n; j++ {
+				w.mutate()
+			}
+		}
+		fp := 0
+		if h.Chance(0.12) {
+			fp = 1 + h.Intn(4)
+		}
+		ops = append(ops, w.applyOp(fp))
+		if h.Chance(0.12) {
+			if h.Chance(0.5) {
+				ops = append(ops, w.pokes()...)
+			}
+			ops = append(ops, "restart "+w.syncerArgs())
+		}
+	}
+	return ops
 }
 
 func main() {
@@ -608,8 +930,8 @@ func main() {
 		s.freshMaps()
 		s.newSyncer("-", "-")
 		for _, op := range ops {
-			out := exec(h, s, op)
-			h.Op(op, out)
+			out, rec := exec(h, s, op)
+			h.Op(rec, out)
 			h.Count("op:" + strings.Fields(op)[0])
 			if strings.HasPrefix(out, "err") {
 				h.Count("apply:err")
